@@ -691,3 +691,407 @@ Proof.
     eapply IHl; [exact H|exact Q|].
     eapply infix_rd; try exact PI; try reflexivity; eauto.
 Qed.
+
+(* ================================================================ *)
+(** * Program-level rules: static expression rules and scoping       *)
+
+(* ---- (e) + typing: static tables ---- *)
+Definition mkenv (B : benv) (F : list (str * finfo)) (vs : list str) : env :=
+  {| e_funcs := map (fun nf => (fst nf, fi_nil (snd nf))) F; e_vars := vs;
+     e_arity := map (fun nf => (fst nf, fi_arity (snd nf))) F; e_tyerr := b_tyerr B; e_fix_slice := true |}.
+Lemma env_of_mkenv B s : env_of B s = mkenv B (fns s) (visible (scs s)).
+Proof. reflexivity. Qed.
+
+(* the expression satisfies the call rules and the typing oracle was silent (tree_ok for some set of visible variables) *)
+Definition expr_sok (B : benv) (F : list (str * finfo)) (t : tree) : Prop := exists vs, tree_ok (mkenv B F vs) t.
+Definition silent (B : benv) (site : tsite) (t : tree) : Prop := exists n, b_tyerr B site t n = false.
+Definition oexpr_sok B F (o : option tree) : Prop := match o with Some t => expr_sok B F t | None => True end.
+
+Fixpoint stmt_sok (B : benv) (F : list (str * finfo)) (s : stmt) : Prop :=
+  match s with
+  | SEmpty | SBreak | STypedDecl _ _ => True
+  | SInferredDecl _ v => expr_sok B F v /\ silent B TS_decl_none v
+  | SAssign t v => expr_sok B F t /\ expr_sok B F v /\ silent B TS_assign_type (TBin T_ASSIGN t v)
+  | SCallStmt c => expr_sok B F c
+  | SReturn v => match v with Some t => expr_sok B F t /\ silent B TS_return_type t | None => True end
+  | SIf brs els =>
+      (fix all (l : list (option tree * block)) : Prop :=
+         match l with
+         | [] => True
+         | cb :: r => (match fst cb with Some c => expr_sok B F c /\ silent B TS_condition c | None => True end) /\
+                      block_sok B F (snd cb) /\ all r
+         end) brs /\
+      match els with Some e => block_sok B F e | None => True end
+  | SWhile c b => (match c with Some c => expr_sok B F c /\ silent B TS_condition c | None => True end) /\ block_sok B F b
+  | SFor _ nodes b =>
+      (fix all (l : list tree) : Prop := match l with [] => True | x :: r => expr_sok B F x /\ all r end) nodes /\
+      silent B TS_for_range_type (TCall [] nodes) /\ block_sok B F b
+  | SFunc _ _ _ b => block_sok B F b
+  | SOn _ _ b => block_sok B F b
+  end
+with block_sok (B : benv) (F : list (str * finfo)) (b : block) : Prop :=
+  match b with Block l _ => (fix all (l : list stmt) : Prop := match l with [] => True | x :: r => stmt_sok B F x /\ all r end) l end.
+
+Definition stmts_sok B F (l : list stmt) : Prop := Forall (stmt_sok B F) l.
+Lemma stmts_sok_fix B F l :
+  (fix all (l : list stmt) : Prop := match l with [] => True | x :: r => stmt_sok B F x /\ all r end) l <-> stmts_sok B F l.
+Proof.
+  induction l as [|x l IH]; simpl; [split; [constructor|auto]|].
+  split; [intros [H1 H2]; constructor; [exact H1|apply IH; exact H2]|].
+  intro H. split; [exact (Forall_inv H)|apply IH; exact (Forall_inv_tail H)].
+Qed.
+
+(* ---- (f) (g) (h): a scope checker on the tree ---- *)
+Definition frame := list (str * bool).          (* declared name, used *)
+Definition ctx := list frame.                   (* innermost scope first *)
+
+Fixpoint fhas (n : str) (f : frame) : bool :=
+  match f with [] => false | x :: r => str_eqb (fst x) n || fhas n r end.
+Fixpoint fmark (n : str) (f : frame) : frame :=
+  match f with [] => [] | x :: r => if str_eqb (fst x) n then (fst x, true) :: r else x :: fmark n r end.
+(* a read or an assignment uses the innermost declaration of the name *)
+Fixpoint cmark (n : str) (G : ctx) : ctx :=
+  match G with [] => [] | f :: r => if fhas n f then fmark n f :: r else f :: cmark n r end.
+Definition cvisible (n : str) (G : ctx) : bool := negb (str_eqb n (s_ "_"%string)) && existsb (fhas n) G.
+
+(* (f) every variable occurrence is declared in an enclosing scope at that point; it is then marked used *)
+Definition use_vars (vs : list str) (G : ctx) : option ctx :=
+  if forallb (fun n => cvisible n G) vs then Some (fold_left (fun G n => cmark n G) vs G) else None.
+
+Record tabs := { t_globals : list str; t_funcs : list str; t_events : list (str * nat) }.
+
+(* (g) a declaration: not a builtin variable, not yet declared in THIS scope, not a function name;
+   "_" only as a parameter, and it declares nothing *)
+Definition declare (T : tabs) (allow_underscore : bool) (n : str) (G : ctx) : option ctx :=
+  match G with
+  | [] => None
+  | f :: r =>
+      if mem_str n (t_globals T) || fhas n f || mem_str n (t_funcs T) || (negb allow_underscore && str_eqb n (s_ "_"%string))
+      then None
+      else Some (if str_eqb n (s_ "_"%string) then G else ((n, false) :: f) :: r)
+  end.
+Fixpoint declare_all (T : tabs) (ns : list str) (G : ctx) : option ctx :=
+  match ns with [] => Some G | n :: r => match declare T true n G with Some G1 => declare_all T r G1 | None => None end end.
+
+(* (h) when a scope ends every name declared in it has been used *)
+Definition close_scope (G : ctx) : option ctx :=
+  match G with f :: r => if forallb snd f then Some r else None | [] => None end.
+
+Definition obind {A C} (o : option A) (k : A -> option C) : option C := match o with Some a => k a | None => None end.
+Definition otv' (o : option tree) : list str := match o with Some x => tvars x | None => [] end.
+Fixpoint lookup_evn (n : str) (l : list (str * nat)) : option nat :=
+  match l with [] => None | (m, k) :: r => if str_eqb m n then Some k else lookup_evn n r end.
+
+Fixpoint scope_stmt (T : tabs) (s : stmt) (G : ctx) {struct s} : option ctx :=
+  match s with
+  | SEmpty | SBreak => Some G
+  | STypedDecl n t => match t with Some _ => declare T false n G | None => None end
+  | SInferredDecl n v => obind (use_vars (tvars v) G) (declare T false n)
+  | SAssign t v => obind (use_vars (tvars t) G) (use_vars (tvars v))
+  | SCallStmt c => use_vars (tvars c) G
+  | SReturn v => use_vars (otv' v) G
+  | SIf brs els =>
+      obind ((fix go (l : list (option tree * block)) (G : ctx) : option ctx :=
+                match l with
+                | [] => Some G
+                | cb :: r => obind (obind (use_vars (otv' (fst cb)) ([] :: G)) (scope_block T (snd cb))) (go r)
+                end) brs G)
+            (fun G1 => match els with Some e => scope_block T e ([] :: G1) | None => Some G1 end)
+  | SWhile c b => obind (use_vars (otv' c) ([] :: G)) (scope_block T b)
+  | SFor v nodes b =>
+      obind (match v with Some n => declare T false n ([] :: G) | None => Some ([] :: G) end)
+            (fun G1 => obind (use_vars (lvars nodes) G1) (scope_block T b))
+  | SFunc _ _ params b => obind (declare_all T params ([] :: G)) (scope_block T b)
+  | SOn name params b =>
+      match lookup_evn name (t_events T) with
+      | None => None
+      | Some k =>
+          match params with
+          | [] => scope_block T b ([] :: G)
+          | _ => if Nat.eqb (List.length params) k then obind (declare_all T params ([] :: G)) (scope_block T b) else None
+          end
+      end
+  end
+(* the statements of a block in the scope that has just been opened; then the scope is closed *)
+with scope_block (T : tabs) (b : block) (G : ctx) {struct b} : option ctx :=
+  match b with
+  | Block l _ =>
+      obind ((fix go (l : list stmt) (G : ctx) : option ctx :=
+                match l with [] => Some G | s :: r => obind (scope_stmt T s G) (go r) end) l G)
+            close_scope
+  end.
+
+Fixpoint scope_stmts (T : tabs) (l : list stmt) (G : ctx) : option ctx :=
+  match l with [] => Some G | s :: r => obind (scope_stmt T s G) (scope_stmts T r) end.
+Lemma scope_block_eq T l t G : scope_block T (Block l t) G = obind (scope_stmts T l G) close_scope.
+Proof.
+  simpl. f_equal. revert G. induction l as [|s l IH]; intro G; simpl; [reflexivity|].
+  destruct (scope_stmt T s G); simpl; [apply IH|reflexivity].
+Qed.
+
+(* a program: the builtin variables form the outermost scope (they count as used) *)
+Definition scope_prog (T : tabs) (p : list stmt) : bool :=
+  match obind (scope_stmts T p [map (fun n => (n, true)) (t_globals T)]) close_scope with Some _ => true | None => false end.
+
+(* ---- the parser's scope chain, abstractly ---- *)
+Definition absf (sc : scope) : frame := map (fun v => (v_name v, v_used v)) (sc_vars sc).
+Definition abs (s : pst) : ctx := map absf (scs s).
+
+Lemma fhas_abs n vs : fhas n (map (fun v => (v_name v, v_used v)) vs) = has_var n vs.
+Proof. induction vs as [|v vs IH]; simpl; [reflexivity|]. rewrite IH. reflexivity. Qed.
+Lemma fmark_abs n vs : fmark n (map (fun v => (v_name v, v_used v)) vs) = map (fun v => (v_name v, v_used v)) (mark_in n vs).
+Proof. induction vs as [|v vs IH]; simpl; [reflexivity|]. destruct (str_eqb (v_name v) n); simpl; [reflexivity|]. rewrite IH. reflexivity. Qed.
+Lemma abs_mark_scopes n l : map absf (mark_scopes n l) = cmark n (map absf l).
+Proof.
+  induction l as [|sc l IH]; simpl; [reflexivity|]. unfold absf at 2. rewrite fhas_abs.
+  destruct (has_var n (sc_vars sc)); simpl; [unfold absf; simpl; rewrite fmark_abs; reflexivity|]. rewrite IH. reflexivity.
+Qed.
+Lemma abs_mark n s : abs (mark n s) = cmark n (abs s).
+Proof. unfold abs, mark. simpl. apply abs_mark_scopes. Qed.
+Lemma abs_upd f s : abs (upd f s) = abs s. Proof. reflexivity. Qed.
+Lemma abs_with_cs s c : abs (with_cs s c) = abs s. Proof. reflexivity. Qed.
+Lemma abs_adv s : abs (adv s) = abs s. Proof. reflexivity. Qed.
+Lemma abs_apnl s : abs (apnl s) = abs s. Proof. reflexivity. Qed.
+Lemma abs_serr_at k n s : abs (serr_at k n s) = abs s. Proof. reflexivity. Qed.
+Lemma abs_serr k s : abs (serr k s) = abs s. Proof. reflexivity. Qed.
+Lemma abs_assert_eol s : abs (assert_eol s) = abs s. Proof. unfold assert_eol. destruct (is_at_eol _); reflexivity. Qed.
+Lemma abs_passert t s : abs (snd (passert t s)) = abs s. Proof. unfold passert. destruct (assert_token t (cs s)); reflexivity. Qed.
+Lemma abs_ty_err_here site s : abs (ty_err_here site s) = abs s. Proof. reflexivity. Qed.
+Lemma abs_push_scope a b c s : abs (push_scope a b c s) = [] :: abs s. Proof. reflexivity. Qed.
+Lemma abs_push_inherit b s : abs (push_inherit b s) = [] :: abs s. Proof. reflexivity. Qed.
+Lemma abs_pop_scope s : abs (pop_scope s) = tl (abs s).
+Proof. unfold abs, pop_scope. simpl. destruct (scs s); reflexivity. Qed.
+Lemma abs_fold_serr {X} (f : X -> nat) k (l : list X) : forall s, abs (fold_left (fun s v => serr_at k (f v) s) l s) = abs s.
+Proof. induction l as [|x l IH]; intro s; simpl; [reflexivity|]. rewrite IH. reflexivity. Qed.
+Lemma abs_validate_scope s : abs (validate_scope s) = abs s.
+Proof. unfold validate_scope. destruct (scs s) eqn:Q; [reflexivity|]. apply abs_fold_serr. Qed.
+Lemma abs_finish_end s : abs (finish_end s) = abs s.
+Proof. unfold finish_end. rewrite abs_apnl, abs_assert_eol, abs_adv, abs_passert. reflexivity. Qed.
+Lemma abs_fold_mark l : forall s0, abs (fold_right mark s0 l) = fold_right cmark (abs s0) l.
+Proof. induction l as [|x l IH]; intro s0; simpl; [reflexivity|]. rewrite abs_mark, IH. reflexivity. Qed.
+Lemma abs_collect s c : abs (collect s c) = fold_right cmark (abs s) (used c).
+Proof. unfold collect. rewrite abs_upd, abs_fold_mark. reflexivity. Qed.
+
+#[local] Hint Rewrite abs_upd abs_with_cs abs_adv abs_apnl abs_serr_at abs_serr abs_assert_eol abs_passert abs_ty_err_here
+  abs_push_scope abs_push_inherit abs_pop_scope abs_validate_scope abs_finish_end abs_mark : abs.
+
+(* visibility *)
+Lemma mem_visible n l : mem_str n (visible l) = existsb (fhas n) (map absf l).
+Proof.
+  unfold visible. induction l as [|sc l IH]; simpl; [reflexivity|].
+  assert (H : forall a b, mem_str n (a ++ b) = mem_str n a || mem_str n b).
+  { induction a as [|x a IHa]; intro b; simpl; [reflexivity|]. rewrite IHa. apply orb_assoc. }
+  rewrite H, IH. f_equal. unfold absf. rewrite fhas_abs.
+  induction (sc_vars sc) as [|v vs IHv]; simpl; [reflexivity|]. rewrite IHv. reflexivity.
+Qed.
+Lemma scope_get_abs n s : scope_get n s = cvisible n (abs s).
+Proof.
+  unfold scope_get, cvisible, abs. f_equal.
+  induction (scs s) as [|sc l IH]; simpl; [reflexivity|]. rewrite IH. unfold absf. rewrite fhas_abs. reflexivity.
+Qed.
+Lemma vis_cvisible B s n : vis (env_of B s) n -> cvisible n (abs s) = true.
+Proof. intros [H1 H2]. unfold cvisible. rewrite H2. simpl in H1. rewrite mem_visible in H1. exact H1. Qed.
+
+(* the reads logged by an expression call, replayed on the abstract scope chain *)
+Lemma use_vars_collect B s c' vs :
+  used c' = rev vs -> Forall (vis (env_of B s)) vs ->
+  use_vars vs (abs s) = Some (abs (collect s c')).
+Proof.
+  intros U F. unfold use_vars.
+  assert (FB : forallb (fun n => cvisible n (abs s)) vs = true).
+  { apply forallb_forall. intros n Hn. rewrite Forall_forall in F. apply (vis_cvisible B). apply F. exact Hn. }
+  rewrite FB, abs_collect, U. f_equal. rewrite <- fold_left_rev_right. reflexivity.
+Qed.
+
+(* declarations *)
+Lemma remove_var_fresh n vs : has_var n vs = false -> remove_var n vs = vs.
+Proof.
+  induction vs as [|v vs IH]; simpl; [reflexivity|]. intro H. apply orb_false_iff in H as [H1 H2].
+  rewrite H1, (IH H2). reflexivity.
+Qed.
+Definition tabs_of (B : benv) (F : list (str * finfo)) : tabs :=
+  {| t_globals := b_globals B; t_funcs := map fst F; t_events := map (fun e => (fst e, List.length (snd e))) (b_events B) |}.
+Lemma is_func_tabs n s : is_func n s = mem_str n (map fst (fns s)).
+Proof.
+  unfold is_func. induction (fns s) as [|[m f] l IH]; simpl; [reflexivity|].
+  destruct (str_eqb m n); [reflexivity|exact IH].
+Qed.
+Lemma in_local_abs n s : in_local n s = match abs s with f :: _ => fhas n f | [] => false end.
+Proof. unfold in_local, abs. destruct (scs s) as [|sc r]; simpl; [reflexivity|]. unfold absf. rewrite fhas_abs. reflexivity. Qed.
+
+Lemma declare_sim B n p a s :
+  fst (validate_var_decl B n p a s) = true -> scs s <> [] ->
+  declare (tabs_of B (fns s)) a n (abs s) = Some (abs (scope_set n p s)).
+Proof.
+  unfold validate_var_decl, declare. intros H NE.
+  destruct (abs s) as [|f r] eqn:A.
+  { unfold abs in A. destruct (scs s); [contradiction|discriminate A]. }
+  rewrite in_local_abs, is_func_tabs, A in H. simpl.
+  destruct (mem_str n (b_globals B)); [discriminate H|].
+  destruct (fhas n f) eqn:FH; [discriminate H|].
+  destruct (mem_str n (map fst (fns s))); [discriminate H|].
+  destruct (negb a && str_eqb n (s_ "_"%string)); [discriminate H|]. simpl.
+  unfold scope_set. destruct (str_eqb n (s_ "_"%string)); [rewrite A; reflexivity|].
+  unfold abs in *. destruct (scs s) as [|sc rs]; [contradiction|]. simpl in *. injection A as Af Ar. subst f r.
+  unfold absf at 1. simpl. rewrite remove_var_fresh; [reflexivity|]. unfold absf in FH. rewrite fhas_abs in FH. exact FH.
+Qed.
+
+(* ---- the read log is empty between expression calls ---- *)
+Definition sused (s : pst) : list str := used (cs s).
+Lemma used_apnl_loop : forall f c, used (apnl_loop f c) = used c.
+Proof. induction f as [|f IH]; intro c; simpl; [reflexivity|]. destruct (cur_t c); rewrite ?IH, ?used_advance; reflexivity. Qed.
+Lemma sused_adv s : sused (adv s) = sused s. Proof. unfold sused, adv, upd, with_cs. cbn [cs]. apply used_advance. Qed.
+Lemma sused_apnl s : sused (apnl s) = sused s. Proof. unfold sused, apnl, upd, with_cs. cbn [cs]. apply used_apnl_loop. Qed.
+Lemma sused_serr_at k n s : sused (serr_at k n s) = sused s. Proof. reflexivity. Qed.
+Lemma sused_serr k s : sused (serr k s) = sused s. Proof. reflexivity. Qed.
+Lemma sused_assert_eol s : sused (assert_eol s) = sused s. Proof. unfold assert_eol. destruct (is_at_eol _); reflexivity. Qed.
+Lemma sused_passert t s : sused (snd (passert t s)) = sused s.
+Proof. unfold passert, sused, assert_token. destruct (toktype_beq _ _); reflexivity. Qed.
+Lemma sused_with_scs s l : sused (with_scs s l) = sused s. Proof. reflexivity. Qed.
+Lemma sused_scope_set n p s : sused (scope_set n p s) = sused s.
+Proof. unfold scope_set. destruct (str_eqb _ _); [reflexivity|]. destruct (scs s); reflexivity. Qed.
+Lemma sused_mark n s : sused (mark n s) = sused s. Proof. reflexivity. Qed.
+Lemma sused_push_scope a b c s : sused (push_scope a b c s) = sused s. Proof. reflexivity. Qed.
+Lemma sused_push_inherit b s : sused (push_inherit b s) = sused s. Proof. reflexivity. Qed.
+Lemma sused_pop_scope s : sused (pop_scope s) = sused s. Proof. reflexivity. Qed.
+Lemma sused_ty_err_here site s : sused (ty_err_here site s) = sused s. Proof. reflexivity. Qed.
+Lemma sused_fold_serr {X} (f : X -> nat) k (l : list X) : forall s, sused (fold_left (fun s v => serr_at k (f v) s) l s) = sused s.
+Proof. induction l as [|x l IH]; intro s; simpl; [reflexivity|]. rewrite IH. reflexivity. Qed.
+Lemma sused_validate_scope s : sused (validate_scope s) = sused s.
+Proof. unfold validate_scope. destruct (scs s); [reflexivity|]. apply sused_fold_serr. Qed.
+Lemma sused_validate_var_decl B n p a s : sused (snd (validate_var_decl B n p a s)) = sused s.
+Proof. unfold validate_var_decl. repeat (destruct (_ : bool); try reflexivity). Qed.
+Lemma sused_finish_end s : sused (finish_end s) = sused s.
+Proof. unfold finish_end. rewrite sused_apnl, sused_assert_eol, sused_adv, sused_passert. reflexivity. Qed.
+Lemma sused_collect s c : sused (collect s c) = [].
+Proof. reflexivity. Qed.
+Lemma sused_upd_err e n s : sused (upd (add_err_at e n) s) = sused s. Proof. reflexivity. Qed.
+#[local] Hint Rewrite sused_adv sused_apnl sused_serr_at sused_serr sused_assert_eol sused_passert sused_with_scs sused_scope_set
+  sused_mark sused_push_scope sused_push_inherit sused_pop_scope sused_ty_err_here sused_validate_scope sused_validate_var_decl
+  sused_finish_end sused_collect sused_upd_err : sused.
+#[local] Hint Rewrite serrs_adv serrs_apnl serrs_serr_at serrs_serr serrs_with_scs serrs_scope_set serrs_mark
+  serrs_push_scope serrs_push_inherit serrs_pop_scope serrs_ty_err_here serrs_collect : serrs.
+#[local] Hint Rewrite fns_upd fns_with_scs fns_with_cs fns_adv fns_apnl fns_serr_at fns_serr fns_assert_eol fns_passert
+  fns_scope_set fns_mark fns_push_scope fns_push_inherit fns_pop_scope fns_ty_err_here fns_collect fns_validate_scope
+  fns_validate_var_decl fns_finish_end : fns.
+
+(* ---- expression calls: rules, reads replayed on the abstract scope chain, table unchanged ---- *)
+Section Calls.
+Variable B : benv.
+
+Lemma expr_sok_of s t : tree_ok (env_of B s) t -> expr_sok B (fns s) t.
+Proof. intro H. exists (visible (scs s)). exact H. Qed.
+
+Lemma p_toplevel_full s t s' : p_toplevel B s = Ok (Some t) s' -> serrs s' = [] -> sused s = [] ->
+  tree_ok (env_of B s) t /\ use_vars (tvars t) (abs s) = Some (abs s') /\ fns s' = fns s /\ sused s' = [].
+Proof.
+  unfold p_toplevel, expr_call. intros H Q U.
+  destruct (parse_toplevel _ _ _ _) as [[a c']|] eqn:P; [|discriminate H].
+  apply Ok_inj in H as [E1 E2]; subst. rewrite serrs_collect in Q.
+  set (E := env_of B s) in *. set (fu := efuel (cs s)) in *.
+  split; [eapply (toplevel_ok E (parse_expr E fu)); [apply (expr_ne E fu)|apply (expr_rules E fu)|exact P|exact Q]|].
+  destruct (toplevel_rd E (parse_expr E fu) (proj1 (expr_ne E fu)) (proj1 (expr_nil E fu)) (proj1 (expr_reads E fu)) fu _ _ _ P Q) as [Ru Rf].
+  unfold sused in U. rewrite U, app_nil_r in Ru.
+  split; [apply (use_vars_collect B); assumption|]. split; [apply fns_collect|reflexivity].
+Qed.
+
+Lemma p_expr_list_full s l s' : p_expr_list B s = Ok (Some l) s' -> serrs s' = [] -> sused s = [] ->
+  Forall (tree_ok (env_of B s)) l /\ use_vars (lvars l) (abs s) = Some (abs s') /\ fns s' = fns s /\ sused s' = [].
+Proof.
+  unfold p_expr_list, expr_call. intros H Q U.
+  destruct (parse_expr_list _ _ _ _) as [[a c']|] eqn:P; [|discriminate H].
+  apply Ok_inj in H as [E1 E2]; subst. rewrite serrs_collect in Q.
+  set (E := env_of B s) in *. set (fu := efuel (cs s)) in *.
+  split; [eapply (expr_list_ok E (parse_expr E fu)); [apply (expr_ne E fu)|apply (expr_rules E fu)|exact P|exact Q|constructor]|].
+  destruct (expr_list_rd E (parse_expr E fu) (proj1 (expr_ne E fu)) (proj1 (expr_reads E fu)) fu _ _ _ _ P Q) as (new & El & Ru & Rf).
+  simpl in El. subst l. unfold sused in U. rewrite U, app_nil_r in Ru.
+  split; [apply (use_vars_collect B); assumption|]. split; [apply fns_collect|reflexivity].
+Qed.
+
+Lemma func_of_env s n fi : lookup_fn n (fns s) = Some fi -> func_of (env_of B s) n = Some (fi_nil fi).
+Proof.
+  unfold func_of. simpl. induction (fns s) as [|[m f] l IH]; simpl; [discriminate|].
+  destruct (str_eqb m n); [intro H; injection H as ->; reflexivity|exact IH].
+Qed.
+
+Lemma p_func_call_full nil s t s' : p_func_call B nil s = Ok (Some t) s' -> serrs s' = [] -> sused s = [] ->
+  func_of (env_of B s) (tlit (cur (cs s))) = Some nil ->
+  tree_ok (env_of B s) t /\ use_vars (tvars t) (abs s) = Some (abs s') /\ fns s' = fns s /\ sused s' = [].
+Proof.
+  unfold p_func_call, expr_call. intros H Q U Hf.
+  destruct (parse_func_call _ _ _ _ _ _) as [[a c']|] eqn:P; [|discriminate H].
+  apply Ok_inj in H as [E1 E2]; subst. rewrite serrs_collect in Q.
+  set (E := env_of B s) in *. set (fu := efuel (cs s)) in *.
+  split; [eapply (func_call_ok E (parse_expr E fu)); [apply (expr_ne E fu)|apply (expr_rules E fu)|exact P|exact Q|exact Hf]|].
+  destruct (func_call_rd E (parse_expr E fu) (proj1 (expr_ne E fu)) (proj1 (expr_nil E fu)) (proj1 (expr_reads E fu)) fu _ _ _ _ _ P Q) as [Ru Rf].
+  unfold sused in U. rewrite U, app_nil_r in Ru.
+  split; [apply (use_vars_collect B); assumption|]. split; [apply fns_collect|reflexivity].
+Qed.
+
+(* assignment targets: parseIndexOrSliceExpr(left, allowSlice = false) and parseDotExpr, as deltas *)
+Lemma index_noslice_full E fu left c t c' :
+  parse_index_or_slice E (parse_expr E fu) fu false left c = Some (Some t, c') -> errs c' = [] -> tree_ok E left ->
+  exists i, t = TIndex left i /\ tree_ok E t /\ reads E c c' (tvars i).
+Proof.
+  unfold parse_index_or_slice, tyerr. intros H Q Hl. cbn [andb] in H.
+  destruct (is_ws (prev (push_wss false c))); [discriminate H|].
+  destruct (e_tyerr E TS_not_indexable left (here c)) eqn:NI; [discriminate H|].
+  destruct (parse_toplevel E (parse_expr E fu) fu _) as [[ix st2]|] eqn:P; [|discriminate H].
+  destruct ix as [i|]; [|discriminate H].
+  destruct (assert_token T_RBRACKET st2) as [ok st3] eqn:A. destruct ok; [|discriminate H].
+  destruct (e_tyerr E TS_index_type _ _) eqn:IT; [discriminate H|].
+  unfold ret in H. injection H as ? ?; subst. autorewrite with errs in Q. destruct (assert_token_ne _ _ _ _ A Q) as [_ ->].
+  exists i. split; [reflexivity|]. split.
+  - simpl. repeat split; auto; try (eexists; eassumption).
+    eapply (toplevel_ok E (parse_expr E fu)); [apply (expr_ne E fu)|apply (expr_rules E fu)|exact P|exact Q].
+  - eapply reads_shift; [| |exact (toplevel_rd E (parse_expr E fu) (proj1 (expr_ne E fu)) (proj1 (expr_nil E fu)) (proj1 (expr_reads E fu)) fu _ _ _ P Q)];
+      autorewrite with used; reflexivity.
+Qed.
+
+Lemma dot_full E left c t c' :
+  parse_dot E left c = Some (Some t, c') -> errs c' = [] -> tree_ok E left ->
+  exists k, t = TDot left k /\ tree_ok E t /\ used c' = used c.
+Proof.
+  unfold parse_dot, tyerr. intros H Q Hl.
+  destruct (is_ws (prev c)); [discriminate H|]. destruct (is_ws (look1 (rest c))); [discriminate H|].
+  destruct (e_tyerr E TS_dot_not_map left (here c)) eqn:DM; [discriminate H|].
+  destruct (ttype (as_ident (cur (advance c)))); unfold ret in H; try discriminate H.
+  injection H as ? ?; subst. eexists. split; [reflexivity|]. split; [simpl; split; [exact Hl|eexists; exact DM]|].
+  autorewrite with used. reflexivity.
+Qed.
+
+Lemma p_index_full left s t s' : p_index B left s = Ok (Some t) s' -> serrs s' = [] -> sused s = [] ->
+  tree_ok (env_of B s) left ->
+  exists i, t = TIndex left i /\ tree_ok (env_of B s) t /\ use_vars (tvars i) (abs s) = Some (abs s') /\ fns s' = fns s /\ sused s' = [].
+Proof.
+  unfold p_index, expr_call. intros H Q U Hl.
+  destruct (parse_index_or_slice _ _ _ _ _ _) as [[a c']|] eqn:P; [|discriminate H].
+  apply Ok_inj in H as [E1 E2]; subst. rewrite serrs_collect in Q.
+  destruct (index_noslice_full _ _ _ _ _ _ P Q Hl) as (i & -> & Ht & Ru & Rf).
+  unfold sused in U. rewrite U, app_nil_r in Ru.
+  exists i. split; [reflexivity|]. split; [exact Ht|]. split; [apply (use_vars_collect B); assumption|].
+  split; [apply fns_collect|reflexivity].
+Qed.
+
+Lemma p_dot_full left s t s' : p_dot B left s = Ok (Some t) s' -> serrs s' = [] -> sused s = [] ->
+  tree_ok (env_of B s) left ->
+  exists k, t = TDot left k /\ tree_ok (env_of B s) t /\ abs s' = abs s /\ fns s' = fns s /\ sused s' = [].
+Proof.
+  unfold p_dot, expr_call. intros H Q U Hl.
+  destruct (parse_dot _ _ _) as [[a c']|] eqn:P; [|discriminate H].
+  apply Ok_inj in H as [E1 E2]; subst. rewrite serrs_collect in Q.
+  destruct (dot_full _ _ _ _ _ P Q Hl) as (k & -> & Ht & Uc).
+  exists k. split; [reflexivity|]. split; [exact Ht|].
+  split; [rewrite abs_collect, Uc; unfold sused in U; rewrite U; reflexivity|]. split; [apply fns_collect|reflexivity].
+Qed.
+
+Lemma p_type_full s a s' : p_type B s = Ok a s' -> sused s = [] -> abs s' = abs s /\ fns s' = fns s /\ sused s' = [].
+Proof.
+  unfold p_type, expr_call. intros H U.
+  destruct (parse_type _ _) as [[x c']|] eqn:P; [|discriminate H].
+  apply Ok_inj in H as [E1 E2]; subst.
+  split; [rewrite abs_collect, (parse_type_used _ _ _ _ P); unfold sused in U; rewrite U; reflexivity|].
+  split; [apply fns_collect|reflexivity].
+Qed.
+
+End Calls.
